@@ -9,6 +9,7 @@ import MetapypeModel.Model.Copy
 import MetapypeModel.Model.Registry
 import MetapypeModel.Model.Prune
 import MetapypeModel.Model.Expand
+import MetapypeModel.Model.Normalize
 import MetapypeModel.Gen.Rules
 import MetapypeModel.Gen.Facts
 /-
@@ -241,6 +242,8 @@ def handle (j : Json) : Json :=
       match expandT (fun k => "uid" ++ toString k) (getTree (fld j "tree")) 0 with
       | none => .str "ValueError"
       | some t' => treeJson t'
+  | some "normalize" =>
+      .str (String.ofList (normalizeText ((optStr (fld j "s")).getD "").toList))
   | some "isequal" =>
       Json.bool (isEqual (getTree (fld j "a")) (getTree (fld j "b")))
   | some "tables" =>
